@@ -141,7 +141,7 @@ theorem mtu_is_min {src dst : Nat} {cores nonCores : List Seg} {out : List Path}
 /-- what `solMtuTerms` contains: the AS MTU of every traversed AS entry and every `linkTerm` -/
 theorem mem_solMtuTerms {s : Sol} {t : Nat} :
     t ∈ solMtuTerms s ↔ ∃ e ∈ s.edges, ∃ x ∈ e.seg.seg.entries.zipIdx, e.edge.shortcut ≤ x.2 ∧
-      (t = x.1.mtu % 2 ^ AS_MTU_CAST_BITS ∨ linkTerm e.edge.shortcut e.edge.peer x = some t) := by
+      (t = min x.1.mtu AS_MTU_SAT ∨ linkTerm e.edge.shortcut e.edge.peer x = some t) := by
   unfold solMtuTerms edgeMtuTerms mtuTerms
   simp only [List.mem_flatMap, List.mem_reverse, List.mem_append, List.mem_singleton, Option.mem_toList]
   constructor
